@@ -143,6 +143,28 @@ class ExecGen:
         self.ids.append(ibtp_id(f, t, idx))
         return f"ibtp {self.signer(f)} {f} {t} {idx} req {g['T']} {grp} ok"
 
+    def tx_group_rcpt(self):
+        """a receipt for a begun child of a group: first reports, repeated reports, and the acknowledgements a destination
+        sends after the group has failed (a failure / rollback receipt for a child that already reported success)"""
+        r = self.rng
+        gs = [g for g in self.groups if g["begun"]]
+        if not gs:
+            return self.tx_rcpt()
+        g = r.choice(gs[-3:])
+        t, idx = r.choice(g["begun"])
+        f = g["from"]
+        rep = g.setdefault("reported", {})
+        prev = rep.get((t, idx))
+        if prev is None:
+            typ = r.choices(["ok", "fail", "rb"], [0.65, 0.3, 0.05])[0]
+        else:
+            typ = r.choices(["ok", "fail", "rb"], [0.15, 0.55, 0.3])[0]
+            self.tags.add(f"group:re-report:{prev}->{typ}")
+        rep[(t, idx)] = typ
+        self.tags.add("group:rcpt:" + typ)
+        self.ids.append(ibtp_id(f, t, idx))
+        return f"ibtp {self.signer(t)} {f} {t} {idx} {typ} 0 - ok"
+
     def tx_xfer(self):
         r = self.rng
         a = r.choice(USERS)
@@ -173,7 +195,9 @@ class ExecGen:
         for _ in range(n):
             k = r.random()
             live_groups = [g for g in self.groups if len(g["begun"]) < len(g["children"])]
-            if self.focus == "group" and k < 0.35:
+            if self.focus == "group" and k < 0.22:
+                txs.append(self.tx_group_rcpt())
+            elif self.focus == "group" and k < 0.5:
                 if live_groups and r.random() < 0.7:
                     txs.append(self.tx_group_child(r.choice(live_groups)))
                 else:
@@ -198,6 +222,10 @@ class ExecGen:
         r = self.rng
         for i in sorted(set(self.ids))[-8:]:
             self.ops.append(f"q status {i}")
+        for g in self.groups[-3:]:
+            if g["begun"]:
+                t, idx = g["begun"][0]
+                self.ops.append(f"q gtx {ibtp_id(g['from'], t, idx)}")
         for s in r.sample(SERVICES, 3):
             self.ops.append(f"q ic {s}")
         if r.random() < 0.5:
